@@ -167,6 +167,52 @@ def judged (m : Int) (A B R : Polygon) (pts : List Pt) : Nat := pts.countP (clea
 def firstBadPoint (m : Int) (A B R : Polygon) (op : Op) (pts : List Pt) : Option Pt :=
   pts.find? fun p => !(pointOK m A B R op p)
 
+/-! ## "empty when the combined region is empty" for sampled calls
+
+`emptyCert op A B` is an exact, decidable CERTIFICATE that the combined region is empty (`Props/C05.lean`,
+`emptyCert_sound`: if it holds, `op` of "inside A" and "inside B" is false at EVERY point).  It recognises: an operand
+without edges; identical operands (`Sub`, `Xor`); operands separated by a vertical or a horizontal line (`Intersect`);
+`B` the axis-parallel rectangle `[[(x0,y0),(x1,y0),(x1,y1),(x0,y1)]]` that contains every vertex of `A` (`Sub`).
+When the certificate holds the result must be empty in the sense of `Polygon.Empty` (no contour has a vertex). -/
+
+def edgeXLe (e f : Pt × Pt) : Bool := decide (max e.1.x e.2.x ≤ min f.1.x f.2.x)
+def edgeYLe (e f : Pt × Pt) : Bool := decide (max e.1.y e.2.y ≤ min f.1.y f.2.y)
+/-- every edge of `EA` lies left of (below) every edge of `EB` -/
+def sepX (EA EB : List (Pt × Pt)) : Bool := EA.all fun e => EB.all fun f => edgeXLe e f
+def sepY (EA EB : List (Pt × Pt)) : Bool := EA.all fun e => EB.all fun f => edgeYLe e f
+
+def separated (A B : Polygon) : Bool :=
+  let EA := allEdges A
+  let EB := allEdges B
+  sepX EA EB || sepX EB EA || sepY EA EB || sepY EB EA
+
+def noEdges (P : Polygon) : Bool := (allEdges P).isEmpty
+
+def inRectEdge (x0 y0 x1 y1 : Int) (e : Pt × Pt) : Bool :=
+  decide (x0 < e.1.x ∧ e.1.x ≤ x1 ∧ x0 < e.2.x ∧ e.2.x ≤ x1 ∧ y0 ≤ e.1.y ∧ e.1.y ≤ y1 ∧ y0 ≤ e.2.y ∧ e.2.y ≤ y1)
+
+/-- `B` is literally the rectangle `[[(x0,y0),(x1,y0),(x1,y1),(x0,y1)]]`, `x0 < x1`, `y0 < y1`, and every vertex of `A`
+    lies in `(x0,x1] × [y0,y1]` -/
+def rectCovers (B A : Polygon) : Bool :=
+  match B with
+  | [[b0, b1, b2, b3]] =>
+    decide (b0.y = b1.y ∧ b1.x = b2.x ∧ b2.y = b3.y ∧ b3.x = b0.x ∧ b0.x < b1.x ∧ b1.y < b2.y) &&
+    (allEdges A).all (inRectEdge b0.x b0.y b2.x b2.y)
+  | _ => false
+
+def emptyCert : Op → Polygon → Polygon → Bool
+  | .inter, A, B => noEdges A || noEdges B || separated A B
+  | .sub, A, B => noEdges A || decide (A = B) || rectCovers B A
+  | .xor, A, B => decide (A = B) || (noEdges A && noEdges B)
+  | .union, A, B => noEdges A && noEdges B
+
+def validateEmpty (A B R : Polygon) (op : Op) : Bool := !(emptyCert op A B) || resultEmpty R
+
+/-- the validator of a sampled call: the law at the sample points that keep the margin, and an empty result whenever
+    the region is certified empty -/
+def validateGeneral (m : Int) (A B R : Polygon) (op : Op) (pts : List Pt) : Bool :=
+  validatePoints m A B R op pts && validateEmpty A B R op
+
 /-! ## exact numbers: dyadic rationals and IEEE decoding -/
 
 /-- the dyadic rational `m · 2^e` -/
